@@ -12,7 +12,10 @@ use std::sync::{Arc, RwLock};
 
 use self::prioritize_chess_moves::sort_chess_moves;
 
-type SearchNode = (u64, i16, i16); // position_hash, alpha, beta
+// position_hash, remaining depth, maximizing player (side to move), alpha, beta.
+// A score is only valid for the depth and side it was searched with: the position
+// hash alone covers neither (it does not include the side to move).
+type SearchNode = (u64, u8, bool, i16, i16);
 type SearchResult = i16; // best_score
 
 mod prioritize_chess_moves;
@@ -173,7 +176,13 @@ fn alpha_beta_minimax(
     beta: i16,
     maximizing_player: bool,
 ) -> Result<i16, SearchError> {
-    let search_node = (board.current_position_hash(), alpha, beta);
+    let search_node = (
+        board.current_position_hash(),
+        depth,
+        maximizing_player,
+        alpha,
+        beta,
+    );
     #[cfg(feature = "verif-hooks")]
     crate::verif_hooks::emit(crate::verif_hooks::Event::Node {
         key: search_node.0,
